@@ -614,3 +614,35 @@ def leading_literals(pattern, flags=0, limit=64):
                 return prefixes, False
         return prefixes, True
     return walk(sp.parse(pattern, flags), {""})[0]
+
+
+def group_rejects(pattern, flags, name, chars):
+    """characters of `chars` that the (first) character-class repeat inside named group `name` does not accept;
+    None if the group or a class repeat in it is not found"""
+    if isinstance(pattern, bytes):
+        pattern = pattern.decode("latin-1")
+    parsed = sp.parse(pattern, flags)
+    gid = parsed.state.groupdict.get(name)
+    found = []
+
+    def walk(seq):
+        for op, av in seq:
+            op = str(op)
+            if op == "SUBPATTERN":
+                if av[0] == gid:
+                    found.append(list(av[3]))
+                walk(av[3])
+            elif op in ("MAX_REPEAT", "MIN_REPEAT"):
+                walk(av[2])
+            elif op == "BRANCH":
+                for alt in av[1]:
+                    walk(alt)
+    walk(parsed)
+    if not found:
+        return None
+    for op, av in found[0]:
+        if str(op) in ("MAX_REPEAT", "MIN_REPEAT") and len(av[2]) == 1:
+            pred = _class_pred(list(av[2])[0])
+            if pred is not None:
+                return "".join(c for c in chars if not pred(c))
+    return None
